@@ -350,6 +350,16 @@ fn history_case(rng: &mut Rng, rec: &mut Rec) {
                         }
                     }
                 });
+                let table = crate::wire::redirect_method(ex.cfg.method, ex.head.status);
+                match &res {
+                    Ok(Ok((Some(_), ..))) if has_location && table.is_none() => {
+                        return rec.fail("C09/redirect-edge-not-in-the-graph", format!("{} answered {}: the documented graph has no Redirect -> Prepare edge here, yet a new flow was produced", ex.cfg.method, ex.head.status));
+                    }
+                    Ok(Ok((None, ..))) if has_location && table.is_some() => {
+                        return rec.fail("C09/redirect-edge-missing", format!("{} answered {}: the documented graph follows this redirect, as_new_flow declined", ex.cfg.method, ex.head.status));
+                    }
+                    _ => {}
+                }
                 match res {
                     Err((loc, msg)) => return rec.fail(&format!("C09/{}-in-Redirect", panic_sig(&loc, &msg)), format!("following the redirect panicked: {} at {}", msg, loc)),
                     Ok(Err(e)) => {
